@@ -102,7 +102,10 @@ fn mark_tail_calls(
         }
         ret
     } else {
-        tail
+        // The form stays as it is, with the annotations it already has. It may
+        // be in use by a caller that is evaluating it, so it is not written to.
+        ret.push(tail)?;
+        return Ok(ret);
     };
     ret.push(new_tail.with_ctxobj(ctxobj).with_span(span))?;
     Ok(ret)
